@@ -1,9 +1,11 @@
+pub mod c01;
 pub mod c03;
+pub mod c18;
 
 use crate::engine::Property;
 
 pub fn all() -> Vec<Property> {
-    vec![c03::property()]
+    vec![c01::property(), c03::property(), c18::property()]
 }
 
 pub fn by_id(id: &str) -> Option<Property> {
